@@ -289,6 +289,10 @@ func (s *script) step() {
 		if rng.Chance(2, 3) {
 			fpb = types.Siacoins(1).Div64(uint64(1000 + rng.Intn(100000)))
 		}
+		if rng.Chance(1, 4) {
+			s.dustRedistribute()
+			return
+		}
 		if rng.Chance(1, 5) { // more than one batch, only the first payable
 			outputs = 11 + rng.Intn(12)
 			amt = bal.Spendable.Div64(uint64(outputs)).Add(bal.Spendable.Div64(uint64(150 + rng.Intn(100))))
@@ -458,6 +462,46 @@ func (s *script) scenarioPartial() {
 		}
 	}
 	s.kinds["scenario-partial"]++
+}
+
+// dustRedistribute asks Redistribute for o outputs such that the k largest usable outputs exceed
+// o×amount + fee (non-zero fee rate) by 1 … o hastings: less than the fee of one more output, more
+// than nothing.  Whatever the code does with such a left-over, every returned transaction must
+// conserve value and be accepted by the pool.
+func (s *script) dustRedistribute() {
+	e, rng := s.e, s.rng
+	sp, err := e.w.SpendableOutputs()
+	must(err)
+	if len(sp) == 0 || s.tieRisk(false) {
+		return
+	}
+	sort.Slice(sp, func(i, j int) bool { return sp[i].SiacoinOutput.Value.Cmp(sp[j].SiacoinOutput.Value) > 0 })
+	k := 1 + rng.Intn(min(len(sp), 3))
+	o := 1 + rng.Intn(3)
+	fpb := types.NewCurrency64(uint64(1 + rng.Intn(1000))).Mul64([]uint64{1, 1000, 1000000000, 1000000000000000}[rng.Intn(4)])
+	var sum types.Currency
+	for _, u := range sp[:k] {
+		sum = sum.Add(u.SiacoinOutput.Value)
+	}
+	cs := e.cm.TipState()
+	w := cs.V2TransactionWeight(types.V2Transaction{SiacoinOutputs: make([]types.SiacoinOutput, o)})
+	fee := fpb.Mul64(241 * uint64(k)).Add(fpb.Mul64(w))
+	if sum.Cmp(fee.Add(types.NewCurrency64(uint64(2*o)))) <= 0 {
+		return
+	}
+	// amount = (sum − fee − δ)/o with the smallest δ ≥ 1 that makes it divide
+	rest := sum.Sub(fee).Sub(types.NewCurrency64(1))
+	amt := rest.Div64(uint64(o))
+	h0 := e.nextH
+	s.redistribute(o, amt, fpb)
+	s.observe()
+	s.kinds["redist-dust"]++
+	for h := h0; h < e.nextH && s.stopped == ""; h++ {
+		if e.txns[h] != nil && rng.Chance(2, 3) {
+			s.bcast(h, false)
+			s.observe()
+		}
+	}
 }
 
 // scenarioDowntime: the node went down with broadcast transactions unconfirmed and comes back with
